@@ -102,14 +102,43 @@ def run_body_factory(name, N, G, nparams, ncosts, seed, fail_script=None, allow_
 
         def after(problem, individual):
             st["ok"] += 1
-        problem, alg, exc = run_algorithm(name, ctx, seed, N, G, n_params=nparams, n_costs=ncosts,
-                                          bounds=[[0.0, 1.0], [-2.0, 2.0]][:nparams], before=before, after=after,
-                                          shim_cfg={"extreme_values": False})
+        acc_viol = []
+        from artap.operators import TournamentSelector
+        orig_acc = TournamentSelector.pop_acceptance
+
+        def watched_acc(self, individuals, individual):
+            # the acceptance rule, observed inside the real eps-MOEA run (working population of the run)
+            before_l = list(individuals)
+            r = orig_acc(self, individuals, individual)
+            xs = tuple(individual.costs_signed)
+            dom = [m for m in before_l if ref_dominance(xs, tuple(m.costs_signed)) == 1]
+            x_dominated = any(ref_dominance(tuple(m.costs_signed), xs) == 1 for m in before_l)
+            removed = [m for m in before_l if not any(m is k for k in individuals)]
+            has_x = any(k is individual for k in individuals)
+            if len(individuals) != len(before_l):
+                acc_viol.append(("C09:EpsMOEA:working-population-size", "acceptance changed the size %d -> %d" % (len(before_l), len(individuals))))
+            elif dom and not (has_x and len(removed) == 1 and any(removed[0] is m for m in dom)):
+                acc_viol.append(("C09:EpsMOEA:acceptance-in-run:dominating", "offspring %r dominates members but replaced %r" % (xs, [tuple(m.costs_signed) for m in removed])))
+            elif not dom and x_dominated and (has_x or removed):
+                acc_viol.append(("C09:EpsMOEA:acceptance-in-run:dominated", "dominated offspring %r was accepted" % (xs,)))
+            elif not dom and not x_dominated and not (has_x and len(removed) == 1):
+                acc_viol.append(("C09:EpsMOEA:acceptance-in-run:incomparable", "incomparable offspring %r not exchanged for one member" % (xs,)))
+            return r
+        if name == "EpsMOEA":
+            TournamentSelector.pop_acceptance = watched_acc
+        try:
+            problem, alg, exc = run_algorithm(name, ctx, seed, N, G, n_params=nparams, n_costs=ncosts,
+                                              bounds=[[0.0, 1.0], [-2.0, 2.0]][:nparams], before=before, after=after,
+                                              shim_cfg={"extreme_values": False})
+        finally:
+            TournamentSelector.pop_acceptance = orig_acc
         desc = "%s N=%d G=%d params=%d objectives=%d seed=%d fail_script=%r" % (name, N, G, nparams, ncosts, seed, sorted(fail_script) if fail_script else None)
         out = []
 
         def bad(key, msg):
             out.append((key, msg + "; " + desc))
+        for k, m in acc_viol[:2]:
+            bad(k, m)
         if exc is not None:
             bad("C09:%s:exception:%s" % (name, type(exc).__name__), "run raised %r" % (exc,))
             ctx.digest = ("exc", type(exc).__name__)
